@@ -309,6 +309,21 @@ def r4(ctx):
     ctx.check(len(redraw) >= 1, "C10.R4", gt, "a colliding candidate is re-drawn inside the loop")
     rets = [n for n in walk_own(gt.node) if isinstance(n, ast.Return)]
     ctx.check(len(rets) == 1 and norm(rets[0].value) == "token" and rets[0].lineno > whiles[0].lineno, "C10.R4", gt, "the token returned is the one that passed the loop")
+    if len(rets) == 1 and isinstance(rets[0].value, ast.Name):
+        tv = rets[0].value.id
+        tnodes = [n for n in cfg.nodes if n.kind == "test" and n.stmt is whiles[0]]
+        at_test = set()
+        for tn in tnodes:
+            at_test |= {d[0] for d in du.reaching(tv, tn.id)}
+        at_ret = {d[0] for d in du.reaching(tv, cfg.node_of(rets[0]).id)}
+        extra = sorted(norm(cfg.nodes[d].ast) for d in at_ret - at_test if d != "ENTRY")
+        ctx.check(at_ret <= at_test, "C10.R4", gt, "the returned value is exactly the value the uniqueness loop tested (no re-binding after the loop)",
+                  "masking or otherwise changing the candidate after the test can map it onto a token that is in use", witness={"definitions_after_the_test": extra}, line=rets[0].lineno)
 
 
-RULES = [("C10.R1", r1), ("C10.R2", r2), ("C10.R3", r3), ("C10.R4", r4)]
+def r_enum(ctx):
+    from .common import enum_identity
+    enum_identity(ctx, "C10.R5", ('server', 'context', 'connection', 'twisted'))
+
+
+RULES = [("C10.R1", r1), ("C10.R2", r2), ("C10.R3", r3), ("C10.R4", r4), ("C10.R5", r_enum)]
